@@ -212,6 +212,17 @@ Proof.
   eapply C04_elab_accepts_representable; eauto.
 Qed.
 
+(* proved without the validation step: the promotion rule is symmetric, and for
+   operands that are not Bool the conversions it inserts exist in codegen.go and
+   give the operand the operation's type *)
+Theorem C04_elab_promotion :
+  (forall a b, lub a b = lub b a) /\
+  (forall a b, a <> TBool -> b <> TBool ->
+     conv_exists a (lub a b) = true /\ conv_exists b (lub a b) = true) /\
+  (forall decls strs nre f t e e',
+     conv_to f t e = EOk e' -> etype decls strs nre e = Some f -> etype decls strs nre e' = Some t).
+Proof. repeat split; [apply lub_comm | apply lub_conv_exists; auto | apply lub_conv_exists; auto | apply conv_to_typed]. Qed.
+
 (* counter c ; gauge g ; /x(\d+) (\d+\.\d+)/ { c += $1 ; g = $2 * $1 ; $1 > 3 { c++ } } *)
 Definition ex_pre : pre_prog :=
   mkpre [mkpdecl MCounter 0; mkpdecl MGauge 0]
@@ -244,6 +255,7 @@ Print Assumptions C04_verify_sound.
 Print Assumptions C04_elab_sound.
 Print Assumptions C04_elab_accepts_representable.
 Print Assumptions C04_elab_never_faults.
+Print Assumptions C04_elab_promotion.
 Print Assumptions C04_ex_elab.
 Print Assumptions C04_ex_elab_mixed.
 Print Assumptions C04_codegen_verifies_partial.
